@@ -12,7 +12,10 @@ The part of x/crosschain/keeper the property is about, as a state machine:
   and the nonce is the next one, `TryAttestation(att, claim)` runs **with the claim object of this voter**;
 * `TryAttestation`: walks the votes in order, sums the power of the oracles that are found, and at the first vote where
   the sum reaches `66 * total / 100` marks the attestation observed, advances the last observed nonce and hands
-  **`claim`** (not the claim recorded in the attestation, not anybody else's) to the handler.
+  **`claim`** (not the claim recorded in the attestation, not anybody else's) to the handler;
+* `AttestationHandler`: send-to-fx, bridge-call and bridge-call-result claims are only STORED
+  (`SavePendingExecuteClaim`, keyed by event nonce); `ExecuteClaim(nonce)` later deletes the stored claim and runs it
+  (an error of the real handler fails the transaction: nothing changes).
 
 `key c` is the hash part of the store key, `ClaimHash(c)` = SHA-256 of the generated `path c` in the code (`hashHex c.path`
 in the driver); it is a parameter so that the theorems can name collision-freeness as a hypothesis and so that the
@@ -44,6 +47,11 @@ def path : AnyClaim → Str
 def nonce : AnyClaim → Nat
   | stf c => c.EventNonce | bc c => c.EventNonce | bcr c => c.EventNonce | ste c => c.EventNonce | bt c => c.EventNonce
   | osu c => c.EventNonce
+
+/-- the types `AttestationHandler` stores for `ExecuteClaim` instead of executing them at once -/
+def deferred : AnyClaim → Bool
+  | stf _ | bc _ | bcr _ => true
+  | _ => false
 
 /-- the type and every effect-relevant field -/
 def effect : AnyClaim → AnyClaim
@@ -83,7 +91,11 @@ structure AState (η : Type) where
   total : Nat := 0
   /-- registered external addresses (`HasOracleAddrByExternalAddr`) -/
   exts : List Str := []
+  /-- `SavePendingExecuteClaim`: event nonce → stored claim -/
+  pending : List (Nat × AnyClaim) := []
   executed : List Exec := []
+  /-- ghost: the claims `ExecuteClaim` has run -/
+  ran : List AnyClaim := []
 
 inductive VoteResult where
   | ok | logicCheck | nonContiguous | panic
@@ -120,6 +132,9 @@ def crosses (s : AState η) (votes : List Nat) : Bool := crossesFrom s votes 0
 
 def sameKey (n : Nat) (h : η) (a : Att η) : Bool := a.nonce == n && a.hash == h
 
+def setPending (ps : List (Nat × AnyClaim)) (n : Nat) (c : AnyClaim) : List (Nat × AnyClaim) :=
+  (n, c) :: ps.filter (fun p => p.1 != n)
+
 def getAtt (atts : List (Att η)) (n : Nat) (h : η) : Option (Att η) := atts.find? (sameKey n h)
 
 def setAtt (atts : List (Att η)) (a : Att η) : List (Att η) := a :: atts.filter (fun b => !sameKey a.nonce a.hash b)
@@ -140,6 +155,7 @@ def applyVote (s : AState η) (a : Att η) (o : Nat) (c : AnyClaim) (obs : Bool)
   if obs then
     { s with atts := setAtt (setAtt s.atts a) { a with observed := true }, lastObserved := c.nonce,
              executed := s.executed ++ [{ claim := c, tallied := a.votes }],
+             pending := if c.deferred then setPending s.pending c.nonce c else s.pending,
              lastByOracle := setAssoc s.lastByOracle o c.nonce }
   else
     { s with atts := setAtt s.atts a, lastByOracle := setAssoc s.lastByOracle o c.nonce }
@@ -160,6 +176,13 @@ inductive Op where
   | setExts (xs : List Str)
   | setLastObserved (n : Nat)
   | setOracleLast (o : Nat) (n : Option Nat)
+  | execute (n : Nat) (handlerFails : Bool)  -- `ExecuteClaim(n)` (precompile `executeClaim`)
+
+/-- `ExecuteClaim(n)`: delete the stored claim and run it; a failing handler fails the transaction -/
+def execute (s : AState η) (n : Nat) (handlerFails : Bool) : AState η :=
+  match s.pending.lookup n with
+  | none => s
+  | some c => if handlerFails then s else { s with pending := s.pending.filter (fun p => p.1 != n), ran := s.ran ++ [c] }
 
 def step (key : AnyClaim → η) (s : AState η) : Op → AState η
   | .vote o c hp => (vote key s o c hp).1
@@ -170,6 +193,7 @@ def step (key : AnyClaim → η) (s : AState η) : Op → AState η
   | .setLastObserved n => { s with lastObserved := n }
   | .setOracleLast o none => { s with lastByOracle := s.lastByOracle.filter (fun p => p.1 != o) }
   | .setOracleLast o (some n) => { s with lastByOracle := setAssoc s.lastByOracle o n }
+  | .execute n f => execute s n f
 
 def run (key : AnyClaim → η) (s : AState η) (ops : List Op) : AState η := ops.foldl (step key) s
 
